@@ -27,15 +27,23 @@ The earlier property theorems live in `Reamber/Lemmas/BMSWrite.lean` (same names
 what each says); they were moved there so that C15's `Lemmas/PermInvBMS.lean` (`posFn`, `snaps_pointwise`,
 `cells_objects`), which builds on them, can be used here.
 
-Still outside `bms_write_read` (stated, not hidden): samples — the hit's sample is what the file's `#WAV` table gives
-the written id (`so (sampleId …)`), not shown equal to the in-memory sample (unknown samples are written under the
-default id); `d.header`'s title/artist/version fields; metronome ≠ 4 (channel-02 lines); the byte lexer is shared by
-`write`'s reader side and `denote`.
+Samples and the header's text fields: `bms_write_read_header` (end of this file; lemmas in
+`Lemmas/BMSHeaderMore.lean`) — under `MiscOK` (no other-key entry named `TITLE` / `ARTIST` / `PLAYLEVEL` or of the
+`WAV…` form) and `SamplesOK` (a dict of two-character ids, file names that survive the reader's `strip`) the header record
+of the denotation carries the chart's sample table exactly, title / artist / version (without trailing white space) and
+the `#LNOBJ` id; the `#WAV` entry of the id a KNOWN sample is written under is that sample (`sample_readback`), an
+unknown sample goes under the default id.  Without `MiscOK` the statement is false for the code as it is: finding D46,
+`title_shadowed_by_misc` (a chart obtained through `BMSMap.read` keeps `TITLE`… in `misc`; the writer prints them after
+its own lines; the last line of a key wins).
+
+Still outside (stated, not hidden): metronome ≠ 4 (channel-02 lines); the byte lexer is shared by `write`'s reader side
+and `denote`.
 -/
 import Reamber.Lemmas.BMSWrite
 import Reamber.Lemmas.PermInvBMS
 import Reamber.Lemmas.SnapMono
 import Reamber.Lemmas.BMSHeader
+import Reamber.Lemmas.BMSHeaderMore
 import Reamber.Props.C04
 
 namespace Reamber.BMS
@@ -1305,5 +1313,113 @@ theorem rows_normalised (cs : List BcSnap) (hwf : wfChanges cs = true) (hs : sor
     obtain ⟨b, hb, e⟩ := List.mem_map.mp hp2
     simp only [← e]
     have := N _ (hok.times.2.2 b hb); exact ⟨⟨this.1, this.2.1, this.2.2.1⟩, this.2.2.2⟩
+
+/-! ### samples and the text fields of the header (the part `bms_write_read` left open) -/
+
+/-- the header record of a denotation is `_read_file_header` of the file's header dict -/
+theorem denote_header (lay : Layout) (lines : List Bytes) (d : Denotation) (h : denote lay lines = some d) :
+    ∃ doc, parseDoc lines = .ok doc ∧ readHeader doc.header = .ok d.header := by
+  unfold denote at h
+  split at h
+  · cases h
+  · rename_i doc hdoc
+    split at h
+    · cases h
+    · rename_i hdr hhdr
+      split at h
+      · cases h
+      · injection h with h
+        refine ⟨doc, hdoc, ?_⟩
+        rw [← h]
+        exact hhdr
+
+/-- **`bms_write_read`, header part: samples, title, artist, version.**  Under the hypotheses of `bms_write_read` and
+
+* `MiscOK c` — no other-key entry (`misc`) is named `TITLE` / `ARTIST` / `PLAYLEVEL` or has the `WAV…` form (finding
+  D46: a chart obtained through `BMSMap.read` keeps exactly these keys in `misc`; see `title_shadowed_by_misc`),
+* `SamplesOK c` — the sample table is a dict (pairwise different ids) of two-character ids whose file names survive
+  the reader's `strip`,
+
+the written file (`write … = ok lines`, the same `lines` as in `bms_write_read`: `write` is a function) has the
+by-the-book meaning `d` (the same `d`: `denote` is a function) whose header record carries the chart's sample table
+exactly, its title / artist / version without trailing white space and its `#LNOBJ` id; hence **a hit or hold whose
+in-memory sample is a file of the table is denoted with exactly that sample** (`bms_write_read` gives the denoted
+sample as the `#WAV` entry of the written id `sampleId c.samples dflt s`), and an unknown sample is written under the
+default id. -/
+theorem bms_write_read_header (cs : List BcSnap) (hwf : wfChanges cs = true) (hs : strictSnaps cs = true)
+    (h0 : firstAtZero cs = true) (hgc : gridCompatible (grid defaultMaxDiv) cs = true) (hm : metronomeOk cs = true)
+    (lay : Layout) (hlay : LayoutOK lay)
+    (hts : lay.exbpmCh ≠ lay.timeSig ∧ ∀ lane ∈ lay.lanes, lane.1 ≠ lay.timeSig)
+    (dflt : Bytes) (c : WChart) (hp : c.bpms.Perm (tmOf 0 cs)) (hok : BmsOk cs lay c)
+    (hR : RowsOK (bmsNoteRows cs lay dflt c ++ bmsTempoRows cs lay c))
+    (hv : ∀ r ∈ bmsNoteRows cs lay dflt c, r.value ≠ ['0', '0'])
+    (hH : HeaderOK c) (hM : MiscOK c) (hS : SamplesOK c) (hdec : ∀ b ∈ c.bpms, roundDec 3 b.bpm = b.bpm)
+    (hl : List Bytes) (hhdr : writeHeader c = .ok hl)
+    (items : Bytes × Nat → List TAtom)
+    (hitems : ∀ lane ∈ lay.lanes, (items lane).Perm (laneItems c dflt lane.2) ∧ (∀ a ∈ items lane, a.idOk c.lnEnd))
+    (hasc : ∀ lane ∈ lay.lanes, ((items lane).flatMap TAtom.times).Pairwise (fun a b => a ≤ b)) :
+    ∃ lines d, write defaultGrid lay dflt c = .ok lines ∧ denote lay lines = some d ∧
+      d.header.samples = c.samples ∧ d.header.title = rstrip c.title ∧ d.header.artist = rstrip c.artist ∧
+      d.header.version = rstrip c.version ∧ d.header.lnEnd = c.lnEnd ∧
+      (∀ s, (∃ k, (k, s) ∈ c.samples) →
+        (dictGet? d.header.samples (sampleId c.samples dflt s)).getD [] = s) ∧
+      (∀ s, (¬ ∃ k, (k, s) ∈ c.samples) → sampleId c.samples dflt s = dflt) := by
+  obtain ⟨lines, d, b0, hw, hd, _⟩ := bms_write_read cs hwf hs h0 hgc hm lay hlay hts dflt c hp hok hR hv hH hdec hl hhdr
+    items hitems hasc
+  obtain ⟨hcells, _⟩ := writeCells_eq cs hwf hs h0 hgc hm lay dflt c hp hok
+  have hwrite : write defaultGrid lay dflt c =
+      .ok (hl ++ [[]] ++ linesOfCells (cellsOfRows (bmsNoteRows cs lay dflt c ++ bmsTempoRows cs lay c))) := by
+    simp only [write, writeNotes, hhdr, hcells, bind, Except.bind]
+  have hlines : lines = hl ++ [[]] ++ linesOfCells (cellsOfRows (bmsNoteRows cs lay dflt c ++ bmsTempoRows cs lay c)) := by
+    rw [hwrite] at hw
+    injection hw with hw
+    exact hw.symm
+  have hmisc : ∀ kv ∈ c.misc, ∃ a r, kv.1 = a :: r ∧ isDigit a = false ∧ isWs a = false := by
+    intro kv hkv
+    obtain ⟨a, r, e, hd, hw⟩ := (hH.misc kv hkv).1
+    exact ⟨a, r, e, hd, hw a (by simp)⟩
+  obtain ⟨H, notes, hparse, hHfold, _, _⟩ :=
+    written_file_objects _ hR hl (writeHeader_headerLike c hl hhdr hmisc)
+  obtain ⟨doc, hdoc, hread⟩ := denote_header lay lines d hd
+  rw [hlines, hparse] at hdoc
+  injection hdoc with hdoc
+  have hH' : doc.header = H := by rw [← hdoc]
+  rw [hH'] at hread
+  obtain ⟨fS, fT, fA, fV⟩ := written_header_fields c hH hM hS hl hhdr H hHfold d.header hread
+  have fL : d.header.lnEnd = c.lnEnd := by
+    rw [readHeader_fields H d.header hread, (written_header_read c hH hl hhdr H hHfold).1]
+    rfl
+  refine ⟨lines, d, hw, hd, fS, fT, fA, fV, fL, ?_, ?_⟩
+  · intro s hk
+    rw [fS]
+    exact (sample_readback c.samples hS.nodup dflt s).1 hk
+  · intro s hk
+    exact (sample_readback c.samples hS.nodup dflt s).2 hk
+
+/-! ### finding D46: other keys that shadow the writer's own header lines -/
+
+/-- the chart of `bms_write_read_nonvacuous` as `BMSMap.read` leaves it after the caller renamed it: `misc` still holds
+the file's `TITLE` -/
+def shadowChart : WChart := { wrExChart with title := "new".toList, misc := [("TITLE".toList, "old".toList)] }
+
+/-- **D46 (counterexample to `bms_write_read_header` without `MiscOK`).**  `BMSMap.read` leaves `TITLE`, `ARTIST`,
+`PLAYLEVEL`, `LNOBJ` among the chart's other keys; `_write_file_header` prints them after its own `#TITLE` line; the
+last line of a key wins: the written header of the chart renamed to `new` (the header dict of the written file is the
+fold of `docStep` over the header lines: `written_file_objects`), read by `_read_file_header`, still says `old`. -/
+theorem title_shadowed_by_misc :
+    ((writeHeader shadowChart).toOption.bind (fun hl => (foldlE docStep ⟨[], []⟩ (hl ++ [[]])).toOption.bind
+      (fun doc => (readHeader doc.header).toOption))).map (·.title) = some "old".toList ∧
+    shadowChart.title = "new".toList ∧ rstrip shadowChart.title = shadowChart.title := by
+  decide +kernel
+
+/-- the header hypotheses of `bms_write_read_header` are satisfiable together: a chart with a sample table -/
+def hdrExChart : WChart := { wrExChart with samples := [("0A".toList, "k.wav".toList), ("0B".toList, "snare 01.ogg".toList)],
+                                            hits := [⟨0, "k.wav".toList, 0⟩] }
+
+theorem header_hyps_nonvacuous : HeaderOK hdrExChart ∧ MiscOK hdrExChart ∧ SamplesOK hdrExChart ∧
+    (dictGet? hdrExChart.samples (sampleId hdrExChart.samples "01".toList "k.wav".toList)).getD [] = "k.wav".toList := by
+  refine ⟨⟨by intro kv hkv; simp [hdrExChart, wrExChart] at hkv, by decide +kernel, by decide +kernel, by decide +kernel,
+    by decide +kernel⟩, ⟨by intro kv hkv; simp [hdrExChart, wrExChart] at hkv⟩, ⟨by decide +kernel, by decide +kernel, by decide +kernel⟩,
+    by decide +kernel⟩
 
 end Reamber.BMS
